@@ -253,8 +253,7 @@ def jobs(tier):
     add('pda_random_unicode', job_pda, fam='random', seed=3, eps='ε', timeout=tmo)
     add('tm_w1_g1', job_tm, nwork=1, gamma_in='a', blank='_', timeout=tmo)
     add('tm_w2_g1_box', job_tm, nwork=2, gamma_in='a', blank='□', timeout=tmo)
-    if not q:
-        add('tm_w1_g2_sub', job_tm, nwork=1, gamma_in='ab', blank='_', tstep=3, timeout=tmo)
+    # (a TM over two input symbols - three table entries - lifts in 13 minutes and its two solver queries then time out: not registered)
     # regular expressions: operator shape fixed per job (cube splitting), leaves symbolic over {0, 1, a, b}:
     # together every tree of depth <= 2 (thorough: depth <= 3 with at most 4 leaves)
     from .C06 import _shapes, _shape_name, _depth
